@@ -4,7 +4,7 @@ import os
 import random
 import numpy as np
 from harness import core, gen, diskimg, oracle
-from harness.props import c01
+from harness.props import c01, c02
 from harness.props import taste_common as tc
 
 PID = 'C11'
@@ -142,6 +142,9 @@ def run_case(seed):
     path = core.scratch_dir(f"c11_{seed}")
     diskimg.write_image(img, path)
     img_sx = diskimg.image_sx(img)
+    # the abstract plotfile of the theorems (C11_tool quantifies over these)
+    pf_sx = [c02.gheader_sx(pf), [[c02.lvboxes_sx(pf, lv), gen.level_to_sx(pf, lv), c02.cellh_sx(pf, lv)[3], c02.cellh_sx(pf, lv)[4]]
+                                  for lv in range(pf.nlevels)]]
     count(f"levels={pf.nlevels}")
     for lk in pf.meta['layouts']:
         count(f"layout={lk}")
@@ -210,6 +213,26 @@ def run_case(seed):
         if d:
             out['disagreements'].append(dict(desc, kind='model-vs-impl', what='output directory differs from Writers.Chef.chef: ' + d,
                                              correspondence='Writers.Chef.chef vs Chef.cook'))
+        # specification side: the abstract plotfile of theorem C11_tool; its image must be the directory on disk, the
+        # hypotheses on the recipe must hold (recipe_fitsb, proved sound) and the image of chef_spec must be the output of
+        # the tool model - the instance of the theorem for this case
+        st2, sp = model.call('chef_spec', [pf_sx, keep_ids, [x.encode() for x in outnames], table])
+        if st2 != 'ok':
+            out['disagreements'].append(dict(desc, kind='spec', what='the specification entry refuses the abstract plotfile',
+                                             correspondence='Plotfile.Abstract.pf_disk'))
+        else:
+            if k == 0:
+                d0 = oracle.same_image(img, oracle.image_from_sx(sp[0]))
+                if d0:
+                    out['disagreements'].append(dict(desc, kind='encode', what='Abstract.pf_disk of the abstract plotfile differs from the directory on disk: ' + d0,
+                                                     correspondence='Plotfile.Abstract.pf_disk vs the generator writer'))
+            count(f"hypotheses of C11_tool hold={sp[2] == 1}")
+            if sp[2] == 1:
+                dspec = 'the tool model refuses' if mimg is None else oracle.same_image(mimg, oracle.image_from_sx(sp[1]))
+                if dspec:
+                    out['disagreements'].append(dict(desc, kind='spec-vs-model',
+                                                     what='theorem C11_tool instance: chef(pf_disk pf) differs from pf_disk(chef_spec pf): ' + dspec,
+                                                     correspondence='Writers.ChefToolProofs.chef_refines'))
     return out
 
 
@@ -409,6 +432,11 @@ def run(tier, seed):
     rep.obligation('correspondence: Writers.Chef.chef (recipe = table of the Python recipe\'s per-box results) = output directory of '
                    'Chef.cook (binary files byte for byte, level headers token for token with min/max by value)',
                    not any(v[0].get('kind') == 'model-vs-impl' for v in rep.violations))
+    rep.obligation('correspondence: Abstract.pf_disk of the abstract plotfile handed to the specification = the directory on disk',
+                   not any(v[0].get('kind') in ('encode', 'spec') for v in rep.violations))
+    rep.obligation('theorem instance (C11_tool) on every user-recipe case: hypotheses evaluated (recipe_fitsb), chef (pf_disk pf) = '
+                   'pf_disk (chef_spec pf) evaluated by the extracted code',
+                   not any(v[0].get('kind') == 'spec-vs-model' for v in rep.violations))
     return rep.finish(
         level_rule=("cases = generated 3D plotfile (1-3 levels, mixed boxes, all layout kinds, int / random payloads) x 2 (user recipe written "
                     "to a .py file: sum, scale, copy, position-dependent, 2- and 3-component; kept-field string: none / subset / permuted / "
